@@ -1,5 +1,343 @@
-"""interface / proxy part of the program generator (see gen_prog.py)"""
+"""Interface / proxy part of the program generator (see gen_prog.py).
+
+For every generated `#[interface]` impl this emits, from the generator's own table:
+  * the interface (methods with random argument / return types, sync / async, &self / &mut self,
+    infallible / fdo::Result / custom error, special parameters, renames, out-arg names, doc comments
+    with XML-special text; properties with random types, access and emits-changed modes; signals),
+  * a separately written `#[proxy]` trait for it (C33),
+  * glue the generic harness drives: argument generators with the reference values of what goes on
+    the wire, predicted replies / errors / emitted signals, property tables, proxy operations.
+Handlers log what they received (`Debug` of the decoded arguments) and compute their result from
+that label alone, so the harness predicts every reply without looking at the library.
+"""
+from gen_prog import Ty, rstr, pascal, WORDS, DOCS
+
+EMITS = ['true', 'true', 'invalidates', 'false', 'const']
+
+
+def word_name(r, prefix):
+    n = r.randint(1, 2)
+    return prefix + '_' + '_'.join(r.choice(WORDS) for _ in range(n))
+
+
+def ref_arg(t):
+    """how a proxy takes an argument of owned type t"""
+    return t.rust
+
+
+class Iface:
+    pass
+
+
+def gen_iface(g, k):
+    r = g.r
+    I = Iface()
+    I.k = k
+    I.rs = f'I{k}'
+    I.name = f'gen.p{g.seed}.I{k}'
+    I.spawn = r.random() < 0.75
+    I.methods, I.props, I.signals = [], [], []
+    # signals first (methods may emit them)
+    for j in range(r.randint(0, 2)):
+        s = {'fn': word_name(r, f's{j}'), 'args': [g.field_type(budget=40) for _ in range(r.randint(0, 3))], 'doc': r.choice(DOCS) if r.random() < 0.5 else None}
+        s['member'] = pascal(s['fn'])
+        I.signals.append(s)
+    used = set()
+    for j in range(r.randint(2, 5)):
+        m = {'fn': word_name(r, f'm{j}')}
+        m['member'] = pascal(m['fn'])
+        if r.random() < 0.2:
+            m['member'] = f'Custom{j}' + r.choice(['', 'X', '_y'])
+            m['rename'] = True
+        m['args'] = [g.field_type(budget=40) for _ in range(r.choice([0, 1, 1, 2, 2, 3]))]
+        rk = r.choice(['unit', 'single', 'single', 'tuple', 'tuple', 'struct'])
+        if rk == 'unit':
+            m['ret'], m['outs'] = Ty('()', ''), []
+        elif rk == 'single':
+            t = g.field_type(budget=40)
+            m['ret'], m['outs'] = t, [t]
+        elif rk == 'tuple':
+            parts = [g.field_type(budget=30) for _ in range(r.randint(2, 3))]
+            m['ret'] = Ty('(' + ', '.join(p.rust for p in parts) + ')', '(' + ''.join(p.sig for p in parts) + ')')
+            m['outs'] = parts
+        else:
+            cands = [t for t in g.types if t['sig'].startswith('(') and len(t['sig']) <= 40 and t['kind'] in ('named-struct', 'tuple-struct', 'value-struct')]
+            if cands:
+                t = g.as_ty(r.choice(cands))
+                m['ret'], m['outs'] = t, [t]
+            else:
+                t = g.basic()
+                m['ret'], m['outs'] = t, [t]
+        # what the reply body is on the wire: a single structure is flattened into its fields
+        m['struct_ret'] = len(m['outs']) == 1 and m['ret'].sig.startswith('(')
+        m['body_sig'] = m['ret'].sig[1:-1] if m['ret'].sig.startswith('(') else m['ret'].sig
+        m['out_names'] = [f'o{i}' for i in range(len(m['outs']))] if (rk == 'tuple' and r.random() < 0.5) else None
+        m['mut'] = r.random() < 0.35
+        m['async'] = r.random() < 0.6
+        m['mode'] = r.choice([0, 0, 1, 1, 2])  # infallible / fdo::Result / custom error
+        m['header'] = r.random() < 0.25
+        m['conn'] = r.random() < 0.15
+        m['server'] = r.random() < 0.15
+        m['emits'] = r.randrange(len(I.signals)) if (I.signals and m['async'] and r.random() < 0.4) else None
+        m['doc'] = r.choice(DOCS) if r.random() < 0.6 else None
+        if m['member'] in used:
+            continue
+        used.add(m['member'])
+        I.methods.append(m)
+    for j in range(r.randint(0, 4)):
+        t = g.field_type(budget=40, val_only=True)
+        p = {'fn': word_name(r, f'p{j}'), 'ty': t, 'emits': r.choice(EMITS)}
+        p['member'] = pascal(p['fn'])
+        acc = r.choice(['rw', 'rw', 'rw', 'r', 'w'])
+        if p['emits'] == 'const':
+            acc = 'r'
+        if acc == 'w':
+            # (the attribute cannot be given on setters: a write-only property has the default mode)
+            p['emits'] = 'true'
+        p['read'], p['write'] = 'r' in acc, 'w' in acc
+        p['rejects'] = p['write'] and r.random() < 0.4
+        p['getter_fallible'] = p['read'] and r.random() < 0.2
+        p['doc'] = r.choice(DOCS) if r.random() < 0.4 else None
+        I.props.append(p)
+    return I
+
+
+def emit_iface(g, I):
+    o = g.out
+    rs = I.rs
+    # ---- server side ----------------------------------------------------------------------------
+    o.append(f'pub struct {rs} {{ pub log: Log, pub count: u32, ' + ''.join(f'pub {p["fn"]}: {p["ty"].rust}, ' for p in I.props) + '}')
+    o.append(f'impl {rs} {{ pub fn new(log: Log) -> Self {{ {rs} {{ log, count: 0, ' + ''.join(f'{p["fn"]}: derived({rstr(rs + "." + p["member"] + "|init")}), ' for p in I.props) + '} } }')
+    attrs = f'name = {rstr(I.name)}' + ('' if I.spawn else ', spawn = false')
+    o.append(f'#[zbus::interface({attrs})]')
+    o.append(f'impl {rs} {{')
+    for m in I.methods:
+        if m['doc']:
+            o.append(f'    #[doc = {rstr(m["doc"])}]')
+        za = []
+        if m.get('rename'):
+            za.append(f'name = {rstr(m["member"])}')
+        if m['out_names']:
+            za.append('out_args(' + ', '.join(rstr(n) for n in m['out_names']) + ')')
+        if za:
+            o.append('    #[zbus(' + ', '.join(za) + ')]')
+        params = ['&mut self' if m['mut'] else '&self']
+        plain = [f'a{i}: {t.rust}' for i, t in enumerate(m['args'])]
+        specials = []
+        if m['header']:
+            specials.append("#[zbus(header)] hdr: zbus::message::Header<'_>")
+        if m['emits'] is not None:
+            specials.append("#[zbus(signal_emitter)] emitter: zbus::object_server::SignalEmitter<'_>")
+        if m['conn']:
+            specials.append('#[zbus(connection)] conn: &zbus::Connection')
+        if m['server']:
+            specials.append('#[zbus(object_server)] server: &zbus::ObjectServer')
+        # special parameters go to generated positions among the plain ones
+        allp = plain[:]
+        for s in specials:
+            allp.insert(g.r.randint(0, len(allp)), s)
+        params += allp
+        ret = m['ret'].rust
+        rty = {0: ret, 1: f'zbus::fdo::Result<{ret}>', 2: f'Result<{ret}, GErr>'}[m['mode']]
+        o.append(f'    {"async " if m["async"] else ""}fn {m["fn"]}(' + ', '.join(params) + f') -> {rty} {{')
+        tup = 'lbl(&[' + ''.join(f'a{i}.to_r(), ' for i in range(len(m['args']))) + '])'
+        o.append(f'        let label = format!("{rs}.{m["member"]}|{{}}", {tup});')
+        o.append('        self.log.lock().unwrap().push(label.clone());')
+        if m['mut']:
+            o.append('        self.count += 1;')
+        if m['header']:
+            o.append('        self.log.lock().unwrap().push(format!("hdr|{}|{}", hdr.member().map(|m| m.to_string()).unwrap_or_default(), hdr.primary().serial_num()));')
+        if m['conn']:
+            o.append('        let _ = conn.unique_name();')
+        if m['server']:
+            o.append('        let _ = server;')
+        if m['async']:
+            o.append('        yield_now().await;')
+        if m['emits'] is not None:
+            s = I.signals[m['emits']]
+            sargs = ''.join(f', derived::<{t.rust}>(&format!("{{label}}|sig{i}"))' for i, t in enumerate(s['args']))
+            o.append(f'        let _ = Self::{s["fn"]}(&emitter{sargs}).await;')
+        if m['mode'] == 0:
+            o.append('        derived(&label)')
+        elif m['mode'] == 1:
+            o.append('        match fails(&label) { Some(h) => Err(fdo_err(h)), None => Ok(derived(&label)) }')
+        else:
+            o.append('        match fails(&label) { Some(h) => Err(custom_err(h)), None => Ok(derived(&label)) }')
+        o.append('    }')
+    for p in I.props:
+        t = p['ty'].rust
+        pa = '' if p['emits'] == 'true' else f'(emits_changed_signal = "{p["emits"]}")'
+        first = True
+        if p['read']:
+            if p['doc']:
+                o.append(f'    #[doc = {rstr(p["doc"])}]')
+            o.append(f'    #[zbus(property{pa})]')
+            first = False
+            if p['getter_fallible']:
+                o.append(f'    fn {p["fn"]}(&self) -> zbus::fdo::Result<{t}> {{ Ok(self.{p["fn"]}.clone()) }}')
+            else:
+                o.append(f'    fn {p["fn"]}(&self) -> {t} {{ self.{p["fn"]}.clone() }}')
+        if p['write']:
+            o.append(f'    #[zbus(property{pa if first else ""})]')
+            lab = f'let label = format!("{rs}.{p["member"]}|set|{{}}", lbl(&[v.to_r()])); self.log.lock().unwrap().push(label.clone());'
+            if p['rejects']:
+                o.append(f'    fn set_{p["fn"]}(&mut self, v: {t}) -> zbus::fdo::Result<()> {{ {lab} if fails(&label).is_some() {{ return Err(zbus::fdo::Error::InvalidArgs("rejected".into())); }} self.{p["fn"]} = v; Ok(()) }}')
+            else:
+                o.append(f'    fn set_{p["fn"]}(&mut self, v: {t}) {{ {lab} self.{p["fn"]} = v; }}')
+    for s in I.signals:
+        if s['doc']:
+            o.append(f'    #[doc = {rstr(s["doc"])}]')
+        o.append('    #[zbus(signal)]')
+        o.append(f"    async fn {s['fn']}(emitter: &zbus::object_server::SignalEmitter<'_>" + ''.join(f', a{i}: {t.rust}' for i, t in enumerate(s['args'])) + ') -> zbus::Result<()>;')
+    o.append('}')
+    o.append('')
+    # ---- proxy ------------------------------------------------------------------------------------
+    o.append(f'#[zbus::proxy(interface = {rstr(I.name)}, default_service = "gen.Server", default_path = "/gen")]')
+    o.append(f'pub trait {rs}P {{')
+    for m in I.methods:
+        if m.get('rename'):
+            o.append(f'    #[zbus(name = {rstr(m["member"])})]')
+        o.append(f'    fn {m["fn"]}(&self' + ''.join(f', a{i}: {ref_arg(t)}' for i, t in enumerate(m['args'])) + f') -> zbus::Result<{m["ret"].rust}>;')
+    for p in I.props:
+        pa = '' if p['emits'] == 'true' else f'(emits_changed_signal = "{p["emits"]}")'
+        if p['read']:
+            o.append(f'    #[zbus(property{pa})]')
+            o.append(f'    fn {p["fn"]}(&self) -> zbus::Result<{p["ty"].rust}>;')
+        if p['write']:
+            o.append(f'    #[zbus(property{pa})]')
+            o.append(f'    fn set_{p["fn"]}(&self, v: {p["ty"].rust}) -> zbus::Result<()>;')
+    for s in I.signals:
+        o.append('    #[zbus(signal)]')
+        o.append(f'    fn {s["fn"]}(&self' + ''.join(f', a{i}: {t.rust}' for i, t in enumerate(s['args'])) + ') -> zbus::Result<()>;')
+    o.append('}')
+    o.append('')
+    # ---- glue -------------------------------------------------------------------------------------
+    lo = rs.lower()
+    o.append(f"fn {lo}_register<'a>(os: &'a zbus::ObjectServer, path: String, log: Log) -> BoxFut<'a, zbus::Result<bool>> {{ Box::pin(async move {{ os.at(path, {rs}::new(log)).await }}) }}")
+    o.append(f"fn {lo}_remove<'a>(os: &'a zbus::ObjectServer, path: String) -> BoxFut<'a, zbus::Result<bool>> {{ Box::pin(async move {{ os.remove::<{rs}, _>(path).await }}) }}")
+    for j, m in enumerate(I.methods):
+        gens = ''.join(f'let a{i}: {t.rust} = Gen::gen(src, &mut fuel); ' for i, t in enumerate(m['args']))
+        tup = 'lbl(&[' + ''.join(f'a{i}.to_r(), ' for i in range(len(m['args']))) + '])'
+        o.append(f'fn {lo}_m{j}_call(src: &mut Src) -> CallSpec {{ let mut fuel = 8u32; {gens}CallSpec {{ label: format!("{rs}.{m["member"]}|{{}}", {tup}), args: vec![' + ', '.join(f'a{i}.to_r()' for i in range(len(m['args']))) + '] } }')
+        o.append(f'fn {lo}_m{j}_expect(label: &str) -> Result<Vec<RVal>, ExpErr> {{ outcome::<{m["ret"].rust}>(label, {m["mode"]}).map(|r| body_of(&r)) }}')
+        if m['emits'] is not None:
+            s = I.signals[m['emits']]
+            o.append(f'fn {lo}_m{j}_signal(label: &str) -> Vec<RVal> {{ vec![' + ', '.join(f'derived::<{t.rust}>(&format!("{{label}}|sig{i}")).to_r()' for i, t in enumerate(s['args'])) + '] }')
+    for j, p in enumerate(I.props):
+        t = p['ty'].rust
+        o.append(f'fn {lo}_p{j}_init() -> RVal {{ derived::<{t}>({rstr(rs + "." + p["member"] + "|init")}).to_r() }}')
+        o.append(f'fn {lo}_p{j}_gen(src: &mut Src) -> (RVal, String) {{ let mut fuel = 8u32; let v: {t} = Gen::gen(src, &mut fuel); (v.to_r(), format!("{rs}.{p["member"]}|set|{{}}", lbl(&[v.to_r()]))) }}')
+    # proxy operations: op index space = methods, then property gets, then property sets
+    o.append(f"fn {lo}_px<'a>(conn: &'a zbus::Connection, path: String, op: usize, bytes: Vec<u8>) -> BoxFut<'a, Result<PxOut, String>> {{ Box::pin(async move {{")
+    o.append(f'    let p = {rs}PProxy::builder(conn).path(path).map_err(|e| e.to_string())?.build().await.map_err(|e| format!("building the proxy failed: {{e}}"))?;')
+    o.append('    let mut src = Src::new(&bytes); let src = &mut src; let mut fuel = 8u32;')
+    o.append('    match op {')
+    op = 0
+    I.px_ops = []
+    for j, m in enumerate(I.methods):
+        gens = ''.join(f'let a{i}: {t.rust} = Gen::gen(src, &mut fuel); ' for i, t in enumerate(m['args']))
+        tup = 'lbl(&[' + ''.join(f'a{i}.to_r(), ' for i in range(len(m['args']))) + '])'
+        call = f'p.{m["fn"]}(' + ', '.join(f'a{i}.clone()' for i in range(len(m['args']))) + ').await'
+        if m['emits'] is not None:
+            s = I.signals[m['emits']]
+            getters = ', '.join(f'args.a{i}().to_r()' for i in range(len(s['args'])))
+            sig_part = f'let mut stream = p.receive_{s["fn"]}().await.map_err(|e| format!("subscribing failed: {{e}}"))?; '
+            after = f' let sigmsg = futures_util::StreamExt::next(&mut stream).await.ok_or("the signal stream ended")?; let args = sigmsg.args().map_err(|e| format!("signal arguments do not decode: {{e}}"))?; let sargs: Vec<RVal> = vec![{getters}];' if s['args'] else ' let _sigmsg = futures_util::StreamExt::next(&mut stream).await.ok_or("the signal stream ended")?; let sargs: Vec<RVal> = vec![];'
+            o.append(f'        {op} => {{ {gens}let label = format!("{rs}.{m["member"]}|{{}}", {tup}); {sig_part}let res = {call};{after} Ok(PxOut::Call {{ label, result: px_result(res), signal: Some(sargs) }}) }}')
+        else:
+            o.append(f'        {op} => {{ {gens}let label = format!("{rs}.{m["member"]}|{{}}", {tup}); let res = {call}; Ok(PxOut::Call {{ label, result: px_result(res), signal: None }}) }}')
+        I.px_ops.append(('m', j))
+        op += 1
+    for j, p in enumerate(I.props):
+        if p['read']:
+            o.append(f'        {op} => {{ let res = p.{p["fn"]}().await; Ok(PxOut::Get {{ prop: {j}, result: res.map(|v| v.to_r()).map_err(|e| e.to_string()) }}) }}')
+            I.px_ops.append(('g', j))
+            op += 1
+        if p['write']:
+            o.append(f'        {op} => {{ let v: {p["ty"].rust} = Gen::gen(src, &mut fuel); let label = format!("{rs}.{p["member"]}|set|{{}}", lbl(&[v.to_r()])); let val = v.to_r(); let res = p.set_{p["fn"]}(v).await; Ok(PxOut::Set {{ prop: {j}, label, value: val, result: res.map_err(|e| e.to_string()) }}) }}')
+            I.px_ops.append(('s', j))
+            op += 1
+    o.append('        _ => Err("harness: no such proxy operation".into()),')
+    o.append('    }')
+    o.append('}) }')
+    # the same through the blocking proxy (run on a thread of its own by the harness)
+    o.append(f'fn {lo}_bpx(conn: &zbus::blocking::Connection, path: String, op: usize, bytes: Vec<u8>) -> Result<PxOut, String> {{')
+    o.append(f'    let p = {rs}PProxyBlocking::builder(conn).path(path).map_err(|e| e.to_string())?.build().map_err(|e| format!("building the proxy failed: {{e}}"))?;')
+    o.append('    let mut src = Src::new(&bytes); let src = &mut src; let mut fuel = 8u32;')
+    o.append('    match op {')
+    op = 0
+    for j, m in enumerate(I.methods):
+        gens = ''.join(f'let a{i}: {t.rust} = Gen::gen(src, &mut fuel); ' for i, t in enumerate(m['args']))
+        tup = 'lbl(&[' + ''.join(f'a{i}.to_r(), ' for i in range(len(m['args']))) + '])'
+        call = f'p.{m["fn"]}(' + ', '.join(f'a{i}.clone()' for i in range(len(m['args']))) + ')'
+        if m['emits'] is not None:
+            s = I.signals[m['emits']]
+            getters = ', '.join(f'args.a{i}().to_r()' for i in range(len(s['args'])))
+            sig_part = f'let mut stream = p.receive_{s["fn"]}().map_err(|e| format!("subscribing failed: {{e}}"))?; '
+            after = f' let sigmsg = stream.next().ok_or("the signal stream ended")?; let args = sigmsg.args().map_err(|e| format!("signal arguments do not decode: {{e}}"))?; let sargs: Vec<RVal> = vec![{getters}];' if s['args'] else ' let _sigmsg = stream.next().ok_or("the signal stream ended")?; let sargs: Vec<RVal> = vec![];'
+            o.append(f'        {op} => {{ {gens}let label = format!("{rs}.{m["member"]}|{{}}", {tup}); {sig_part}let res = {call};{after} Ok(PxOut::Call {{ label, result: px_result(res), signal: Some(sargs) }}) }}')
+        else:
+            o.append(f'        {op} => {{ {gens}let label = format!("{rs}.{m["member"]}|{{}}", {tup}); let res = {call}; Ok(PxOut::Call {{ label, result: px_result(res), signal: None }}) }}')
+        op += 1
+    for j, p in enumerate(I.props):
+        if p['read']:
+            o.append(f'        {op} => {{ let res = p.{p["fn"]}(); Ok(PxOut::Get {{ prop: {j}, result: res.map(|v| v.to_r()).map_err(|e| e.to_string()) }}) }}')
+            op += 1
+        if p['write']:
+            o.append(f'        {op} => {{ let v: {p["ty"].rust} = Gen::gen(src, &mut fuel); let label = format!("{rs}.{p["member"]}|set|{{}}", lbl(&[v.to_r()])); let val = v.to_r(); let res = p.set_{p["fn"]}(v); Ok(PxOut::Set {{ prop: {j}, label, value: val, result: res.map_err(|e| e.to_string()) }}) }}')
+            op += 1
+    o.append('        _ => Err("harness: no such proxy operation".into()),')
+    o.append('    }')
+    o.append('}')
+    o.append('')
+
+
+def entry(I):
+    lo = I.rs.lower()
+    e = []
+    e.append(f'        IfaceEntry {{ rs: {rstr(I.rs)}, name: {rstr(I.name)}, spawn: {"true" if I.spawn else "false"}, register: {lo}::{lo}_register, remove: {lo}::{lo}_remove, px: {lo}::{lo}_px, bpx: {lo}::{lo}_bpx,')
+    e.append('            methods: vec![')
+    for j, m in enumerate(I.methods):
+        sl = lambda xs: '&[' + ', '.join(rstr(x) for x in xs) + ']'
+        e.append(f'                MethodEntry {{ member: {rstr(m["member"])}, in_sigs: {sl([t.sig for t in m["args"]])}, in_names: {sl([f"a{i}" for i in range(len(m["args"]))])}, out_sigs: {sl([t.sig for t in m["outs"]])}, out_names: {sl(m["out_names"] or [])}, body_sig: {rstr(m["body_sig"])}, struct_ret: {"true" if m["struct_ret"] else "false"}, mutable: {"true" if m["mut"] else "false"}, is_async: {"true" if m["async"] else "false"}, mode: {m["mode"]}, header: {"true" if m["header"] else "false"}, emits: {("Some(%d)" % m["emits"]) if m["emits"] is not None else "None"}, gen_call: {lo}::{lo}_m{j}_call, expect: {lo}::{lo}_m{j}_expect, expect_signal: {("Some(%s::%s_m%d_signal)" % (lo, lo, j)) if m["emits"] is not None else "None"}, doc: {("Some(%s)" % rstr(m["doc"])) if m["doc"] else "None"} }},')
+    e.append('            ],')
+    e.append('            props: vec![')
+    for j, p in enumerate(I.props):
+        e.append(f'                PropEntry {{ name: {rstr(p["member"])}, sig: {rstr(p["ty"].sig)}, read: {"true" if p["read"] else "false"}, write: {"true" if p["write"] else "false"}, emits: {rstr(p["emits"])}, rejects: {"true" if p["rejects"] else "false"}, init: {lo}::{lo}_p{j}_init, gen_val: {lo}::{lo}_p{j}_gen, doc: {("Some(%s)" % rstr(p["doc"])) if p["doc"] else "None"} }},')
+    e.append('            ],')
+    e.append('            signals: vec![')
+    for s in I.signals:
+        sl = lambda xs: '&[' + ', '.join(rstr(x) for x in xs) + ']'
+        e.append(f'                SignalEntry {{ member: {rstr(s["member"])}, sigs: {sl([t.sig for t in s["args"]])}, names: {sl([f"a{i}" for i in range(len(s["args"]))])}, doc: {("Some(%s)" % rstr(s["doc"])) if s["doc"] else "None"} }},')
+    e.append('            ],')
+    ops = ', '.join(f'({rstr(k)}, {j})' for k, j in I.px_ops)
+    e.append(f'            px_ops: vec![{ops}],')
+    e.append('        },')
+    return e
 
 
 def emit(g, n):
-    g.out.append('pub fn ifaces() -> Vec<crate::ifcheck::IfaceEntry> { vec![] }')
+    o = g.out
+    o.append('use crate::genval::{body_of, derived, lbl};')
+    o.append('use crate::ifcheck::{custom_err, fails, fdo_err, outcome, px_result, BoxFut, CallSpec, ExpErr, GErr, IfaceEntry, Log, MethodEntry, PropEntry, PxOut, SignalEntry};')
+    o.append('use crate::sched::yield_now;')
+    o.append('')
+    ifaces = [gen_iface(g, k) for k in range(n)]
+    for I in ifaces:
+        # one module per interface: the proxy macro derives type names from the signal names
+        start = len(o)
+        emit_iface(g, I)
+        body = ['    ' + ('pub ' + l if l.startswith('fn ') else l) for l in o[start:]]
+        del o[start:]
+        o.append(f'pub mod {I.rs.lower()} {{')
+        o.append('    use super::*;')
+        o.extend(body)
+        o.append('}')
+        o.append(f'pub use {I.rs.lower()}::{I.rs};')
+        o.append('')
+    o.append('pub fn ifaces() -> Vec<IfaceEntry> {')
+    o.append('    vec![')
+    for I in ifaces:
+        o.extend(entry(I))
+    o.append('    ]')
+    o.append('}')
